@@ -1,6 +1,266 @@
-//! Bit operations (C09).
+//! Bit operations (C09) — every op runs all of its call forms (C15).
+//!
+//! Ops (see lean/Dashu/Driver/Bits.lean for the model side):
+//!   u.and/or/xor a b        UBig op UBig                      -> hex
+//!   i.and/or/xor a b        IBig op IBig                      -> hex
+//!   ui.and a b              UBig & IBig -> UBig ;  ui.or / ui.xor -> IBig
+//!   iu.and a b              IBig & UBig -> UBig ;  iu.or / iu.xor -> IBig
+//!   i.not a                 !IBig
+//!   up.and/or/xor a ty v    UBig op primitive (ty in u8..u128,usize)   (and -> primitive)
+//!   ip.and/or/xor a ty v    IBig op primitive (ty in u8..usize, i8..isize)
+//!   u.shl/u.shr/i.shl/i.shr a d:n
+//!   u.bit/i.bit a d:n ; u.bitlen/i.bitlen a ; u.setbit/u.clearbit a d:n
+//!   u.tz/u.to/i.tz/i.to a   trailing zeros / ones -> d:k | none
+//!   u.countones a ; u.countzeros a -> d:k | none
+//!   u.splitbits a d:n -> lo hi ; u.clearhigh a d:n ; u.ispow2 a ; u.nextpow2 a ; u.ones d:n
+use dashu_base::{BitTest, PowerOfTwo};
+use dashu_int::{IBig, UBig};
+use verif_harness::forms::{merge, run1};
 use verif_harness::util::*;
+use verif_harness::{forms_bin4, forms_bin6};
 
-pub fn dispatch(_op: &str, _args: &[&str]) -> Option<Res> {
-    None
+fn fu(x: &UBig) -> String {
+    f_ubig(x)
+}
+fn fi(x: &IBig) -> String {
+    f_ibig(x)
+}
+fn fopt(x: Option<usize>) -> String {
+    match x {
+        Some(k) => f_dec(k),
+        None => "none".to_string(),
+    }
+}
+
+/// shifts: 4 operator forms (value/ref × usize/&usize) + 2 assign forms
+macro_rules! forms_shift {
+    ($a:expr, $n:expr, $op:tt, $opa:tt, $fmt:expr) => {{
+        let a = $a;
+        let n: usize = $n;
+        let rs = vec![
+            run1(|| $fmt(&(a.clone() $op n))),
+            run1(|| $fmt(&(&a $op n))),
+            run1(|| $fmt(&(a.clone() $op &n))),
+            run1(|| $fmt(&(&a $op &n))),
+            run1(|| { let mut x = a.clone(); x $opa n; $fmt(&x) }),
+            run1(|| { let mut x = a.clone(); x $opa &n; $fmt(&x) }),
+        ];
+        merge(&["v", "r", "v&", "r&", "as", "as&"], rs)
+    }};
+}
+
+/// `big op prim` in all 8 operator forms (+ 2 assign forms), formatted with Display-to-hex closures
+macro_rules! prim_forms {
+    ($a:expr, $v:expr, $op:tt, $opa:tt, $fmt:expr, $fmta:expr) => {{
+        let a = $a;
+        let v = $v;
+        let rs = vec![
+            run1(|| $fmt(a.clone() $op v)),
+            run1(|| $fmt(&a $op v)),
+            run1(|| $fmt(a.clone() $op &v)),
+            run1(|| $fmt(&a $op &v)),
+            run1(|| $fmt(v $op a.clone())),
+            run1(|| $fmt(&v $op a.clone())),
+            run1(|| $fmt(v $op &a)),
+            run1(|| $fmt(&v $op &a)),
+            run1(|| { let mut x = a.clone(); x $opa v; $fmta(&x) }),
+            run1(|| { let mut x = a.clone(); x $opa &v; $fmta(&x) }),
+        ];
+        merge(&["bv_p", "br_p", "bv_pr", "br_pr", "p_bv", "pr_bv", "p_br", "pr_br", "as", "asr"], rs)
+    }};
+}
+
+/// hex integer with optional sign -> (negative?, magnitude)
+fn parse_prim(s: &str) -> Result<(bool, u128), String> {
+    let (neg, body) = match s.strip_prefix('-') {
+        Some(r) => (true, r),
+        None => (false, s),
+    };
+    let m = u128::from_str_radix(body, 16).map_err(|_| format!("bad-arg prim {}", s))?;
+    Ok((neg, m))
+}
+
+fn to_u<T: TryFrom<u128>>(v: (bool, u128)) -> Result<T, String> {
+    if v.0 && v.1 != 0 {
+        return Err("bad-arg prim-range".to_string());
+    }
+    T::try_from(v.1).map_err(|_| "bad-arg prim-range".to_string())
+}
+
+fn to_i<T: TryFrom<i128>>(v: (bool, u128)) -> Result<T, String> {
+    let x: i128 = if v.0 {
+        if v.1 > (1u128 << 127) {
+            return Err("bad-arg prim-range".to_string());
+        }
+        (v.1 as i128).wrapping_neg()
+    } else {
+        i128::try_from(v.1).map_err(|_| "bad-arg prim-range".to_string())?
+    };
+    T::try_from(x).map_err(|_| "bad-arg prim-range".to_string())
+}
+
+/// UBig op unsigned primitive
+macro_rules! ubig_prim {
+    ($opname:expr, $a:expr, $ty:ty, $v:expr) => {{
+        let v: $ty = $v?;
+        match $opname {
+            "and" => prim_forms!($a, v, &, &=, |r: $ty| format!("{:x}", r), fu),
+            "or" => prim_forms!($a, v, |, |=, |r: UBig| fu(&r), fu),
+            "xor" => prim_forms!($a, v, ^, ^=, |r: UBig| fu(&r), fu),
+            _ => Err("__none__".into()),
+        }
+    }};
+}
+
+/// IBig op unsigned primitive (and -> primitive)
+macro_rules! ibig_uprim {
+    ($opname:expr, $a:expr, $ty:ty, $v:expr) => {{
+        let v: $ty = $v?;
+        match $opname {
+            "and" => prim_forms!($a, v, &, &=, |r: $ty| format!("{:x}", r), fi),
+            "or" => prim_forms!($a, v, |, |=, |r: IBig| fi(&r), fi),
+            "xor" => prim_forms!($a, v, ^, ^=, |r: IBig| fi(&r), fi),
+            _ => Err("__none__".into()),
+        }
+    }};
+}
+
+/// IBig op signed primitive (all -> IBig)
+macro_rules! ibig_iprim {
+    ($opname:expr, $a:expr, $ty:ty, $v:expr) => {{
+        let v: $ty = $v?;
+        match $opname {
+            "and" => prim_forms!($a, v, &, &=, |r: IBig| fi(&r), fi),
+            "or" => prim_forms!($a, v, |, |=, |r: IBig| fi(&r), fi),
+            "xor" => prim_forms!($a, v, ^, ^=, |r: IBig| fi(&r), fi),
+            _ => Err("__none__".into()),
+        }
+    }};
+}
+
+pub fn dispatch(op: &str, args: &[&str]) -> Option<Res> {
+    Some((|| -> Res {
+        match op {
+            // ---------------------------------------------------------------- UBig / IBig bitwise
+            "u.and" => forms_bin6!(p_ubig(arg(args, 0)?)?, p_ubig(arg(args, 1)?)?, &, &=, fu),
+            "u.or" => forms_bin6!(p_ubig(arg(args, 0)?)?, p_ubig(arg(args, 1)?)?, |, |=, fu),
+            "u.xor" => forms_bin6!(p_ubig(arg(args, 0)?)?, p_ubig(arg(args, 1)?)?, ^, ^=, fu),
+            "i.and" => forms_bin6!(p_ibig(arg(args, 0)?)?, p_ibig(arg(args, 1)?)?, &, &=, fi),
+            "i.or" => forms_bin6!(p_ibig(arg(args, 0)?)?, p_ibig(arg(args, 1)?)?, |, |=, fi),
+            "i.xor" => forms_bin6!(p_ibig(arg(args, 0)?)?, p_ibig(arg(args, 1)?)?, ^, ^=, fi),
+            "ui.and" => forms_bin6!(p_ubig(arg(args, 0)?)?, p_ibig(arg(args, 1)?)?, &, &=, fu),
+            "ui.or" => forms_bin4!(p_ubig(arg(args, 0)?)?, p_ibig(arg(args, 1)?)?, |, fi),
+            "ui.xor" => forms_bin4!(p_ubig(arg(args, 0)?)?, p_ibig(arg(args, 1)?)?, ^, fi),
+            "iu.and" => {
+                // IBig & UBig -> UBig ; IBig &= UBig stays IBig (same value)
+                let a = p_ibig(arg(args, 0)?)?;
+                let b = p_ubig(arg(args, 1)?)?;
+                let rs = vec![
+                    run1(|| fu(&(a.clone() & b.clone()))),
+                    run1(|| fu(&(a.clone() & &b))),
+                    run1(|| fu(&(&a & b.clone()))),
+                    run1(|| fu(&(&a & &b))),
+                    run1(|| {
+                        let mut x = a.clone();
+                        x &= b.clone();
+                        fi(&x)
+                    }),
+                    run1(|| {
+                        let mut x = a.clone();
+                        x &= &b;
+                        fi(&x)
+                    }),
+                ];
+                merge(&["vv", "vr", "rv", "rr", "as", "asr"], rs)
+            }
+            "iu.or" => forms_bin6!(p_ibig(arg(args, 0)?)?, p_ubig(arg(args, 1)?)?, |, |=, fi),
+            "iu.xor" => forms_bin6!(p_ibig(arg(args, 0)?)?, p_ubig(arg(args, 1)?)?, ^, ^=, fi),
+            "i.not" => {
+                let a = p_ibig(arg(args, 0)?)?;
+                let rs = vec![run1(|| fi(&(!a.clone()))), run1(|| fi(&(!&a)))];
+                merge(&["v", "r"], rs)
+            }
+            // ---------------------------------------------------------------- primitives
+            "up.and" | "up.or" | "up.xor" => {
+                let a = p_ubig(arg(args, 0)?)?;
+                let ty = arg(args, 1)?;
+                let v = parse_prim(arg(args, 2)?)?;
+                let o = &op[3..];
+                match ty {
+                    "u8" => ubig_prim!(o, a, u8, to_u::<u8>(v)),
+                    "u16" => ubig_prim!(o, a, u16, to_u::<u16>(v)),
+                    "u32" => ubig_prim!(o, a, u32, to_u::<u32>(v)),
+                    "u64" => ubig_prim!(o, a, u64, to_u::<u64>(v)),
+                    "u128" => ubig_prim!(o, a, u128, to_u::<u128>(v)),
+                    "usize" => ubig_prim!(o, a, usize, to_u::<usize>(v)),
+                    _ => Err(format!("bad-arg type {}", ty)),
+                }
+            }
+            "ip.and" | "ip.or" | "ip.xor" => {
+                let a = p_ibig(arg(args, 0)?)?;
+                let ty = arg(args, 1)?;
+                let v = parse_prim(arg(args, 2)?)?;
+                let o = &op[3..];
+                match ty {
+                    "u8" => ibig_uprim!(o, a, u8, to_u::<u8>(v)),
+                    "u16" => ibig_uprim!(o, a, u16, to_u::<u16>(v)),
+                    "u32" => ibig_uprim!(o, a, u32, to_u::<u32>(v)),
+                    "u64" => ibig_uprim!(o, a, u64, to_u::<u64>(v)),
+                    "u128" => ibig_uprim!(o, a, u128, to_u::<u128>(v)),
+                    "usize" => ibig_uprim!(o, a, usize, to_u::<usize>(v)),
+                    "i8" => ibig_iprim!(o, a, i8, to_i::<i8>(v)),
+                    "i16" => ibig_iprim!(o, a, i16, to_i::<i16>(v)),
+                    "i32" => ibig_iprim!(o, a, i32, to_i::<i32>(v)),
+                    "i64" => ibig_iprim!(o, a, i64, to_i::<i64>(v)),
+                    "i128" => ibig_iprim!(o, a, i128, to_i::<i128>(v)),
+                    "isize" => ibig_iprim!(o, a, isize, to_i::<isize>(v)),
+                    _ => Err(format!("bad-arg type {}", ty)),
+                }
+            }
+            // ---------------------------------------------------------------- shifts
+            "u.shl" => forms_shift!(p_ubig(arg(args, 0)?)?, p_usize(arg(args, 1)?)?, <<, <<=, fu),
+            "u.shr" => forms_shift!(p_ubig(arg(args, 0)?)?, p_usize(arg(args, 1)?)?, >>, >>=, fu),
+            "i.shl" => forms_shift!(p_ibig(arg(args, 0)?)?, p_usize(arg(args, 1)?)?, <<, <<=, fi),
+            "i.shr" => forms_shift!(p_ibig(arg(args, 0)?)?, p_usize(arg(args, 1)?)?, >>, >>=, fi),
+            // ---------------------------------------------------------------- bit queries
+            "u.bit" => Ok(p_ubig(arg(args, 0)?)?.bit(p_usize(arg(args, 1)?)?).to_string()),
+            "i.bit" => Ok(p_ibig(arg(args, 0)?)?.bit(p_usize(arg(args, 1)?)?).to_string()),
+            "u.bitlen" => Ok(f_dec(p_ubig(arg(args, 0)?)?.bit_len())),
+            "i.bitlen" => Ok(f_dec(p_ibig(arg(args, 0)?)?.bit_len())),
+            "u.setbit" => {
+                let mut a = p_ubig(arg(args, 0)?)?;
+                a.set_bit(p_usize(arg(args, 1)?)?);
+                Ok(fu(&a))
+            }
+            "u.clearbit" => {
+                let mut a = p_ubig(arg(args, 0)?)?;
+                a.clear_bit(p_usize(arg(args, 1)?)?);
+                Ok(fu(&a))
+            }
+            "u.tz" => Ok(fopt(p_ubig(arg(args, 0)?)?.trailing_zeros())),
+            "u.to" => Ok(fopt(p_ubig(arg(args, 0)?)?.trailing_ones())),
+            "i.tz" => Ok(fopt(p_ibig(arg(args, 0)?)?.trailing_zeros())),
+            "i.to" => Ok(fopt(p_ibig(arg(args, 0)?)?.trailing_ones())),
+            "u.countones" => Ok(f_dec(p_ubig(arg(args, 0)?)?.count_ones())),
+            "u.countzeros" => Ok(fopt(p_ubig(arg(args, 0)?)?.count_zeros())),
+            "u.splitbits" => {
+                let a = p_ubig(arg(args, 0)?)?;
+                let (lo, hi) = a.split_bits(p_usize(arg(args, 1)?)?);
+                Ok(format!("{} {}", fu(&lo), fu(&hi)))
+            }
+            "u.clearhigh" => {
+                let mut a = p_ubig(arg(args, 0)?)?;
+                a.clear_high_bits(p_usize(arg(args, 1)?)?);
+                Ok(fu(&a))
+            }
+            "u.ispow2" => Ok(p_ubig(arg(args, 0)?)?.is_power_of_two().to_string()),
+            "u.nextpow2" => Ok(fu(&p_ubig(arg(args, 0)?)?.next_power_of_two())),
+            "u.ones" => Ok(fu(&UBig::ones(p_usize(arg(args, 0)?)?))),
+            _ => Err("__none__".into()),
+        }
+    })())
+    .and_then(|r| match r {
+        Err(e) if e == "__none__" => None,
+        other => Some(other),
+    })
 }
